@@ -5,7 +5,7 @@ Sources (parsed with ``ast``; nothing is imported or executed):
 * ``user/manager.py``: module constants ``RETRY_TIMEOUT_NET_ERROR``, ``RETRY_TIMEOUT_NON_EXISTING_USER``;
   ``UserTrackingManager._request_tracking`` — which constant every failure branch returns (send raised,
   TimeoutError, other exception, ``not response.exists``) and that success returns ``None``; the ``timeout=`` of its
-  ``wait_for_server_message`` call; ``_request_retry`` (sleep(timeout), then a request with ``TrackingFlag(0)``);
+  ``wait_for_server_message`` call; ``_request_retry`` (sleep(timeout), then a request with ``TrackingFlag(0)`` marked ``retry=True``);
   the default ``retry_timeout`` of ``_set_tracking_state``; the numeric values of ``TrackingFlag`` members
   (``user/model.py``).
 * ``constants.py``: ``DEFAULT_COMMAND_TIMEOUT``; ``client.py``: ``execute``/``__call__`` use it as the default.
@@ -121,7 +121,7 @@ def translate(src: Path) -> dict:
     # ---- _request_retry: sleep(timeout); TrackingRequest(tracked_user.add_flag, TrackingFlag(0)); put_nowait
     rr = _body(find_func(utm.body, '_request_retry'))
     want = ['await asyncio.sleep(timeout)',
-            'request = TrackingRequest(tracked_user.add_flag, TrackingFlag(0))',
+            'request = TrackingRequest(tracked_user.add_flag, TrackingFlag(0), retry=True)',
             'tracked_user.queue.put_nowait(request)']
     if [ast.unparse(s) for s in rr] != want:
         raise Refuse('_request_retry changed: ' + ' ; '.join(ast.unparse(s) for s in rr)[:300])
